@@ -33,7 +33,8 @@ META = dict(
          "ended by a jesse exception is judged as a prefix. Model: fee 0, one symbol, wallet relative to the cycle start.",
     design_ref="4/C06")
 
-KINDS_Q = ["ladder", "over", "sized", "fast2", "near", "wrong", "tf5", "fast", "two", "iso", "half", "fast2", "spotfee", "tf15", "tf60", "iso"]
+KINDS_Q = ["ladder", "over", "sized", "fast2", "near", "wrong", "tf5", "fast", "two", "iso", "half", "fast2", "spotfee", "tf15", "tf60", "iso",
+           "spotover"]
 
 
 def run(ctx):
@@ -50,7 +51,7 @@ def run(ctx):
     PRE = dict(rrepl=False, rclamp=False)
     jobs = [("model of the tree (reduce-only replacement 5ca726f8, clamped reduce-only fills eed2d42c), full menus: two-point entries, "
              "partial take-profits, oversize and wrong-side rows, edits in every hook; all C06 invariants",
-             dict(depth=ctx.pick(10, 12), edit=ctx.pick(1, 2), invariants=K.INV_C06, **FULL)),
+             dict(depth=ctx.pick(9, 11), edit=ctx.pick(1, 2), invariants=K.INV_C06, **FULL)),
             ("model of the tree, one-point entries, deeper; all C06 invariants", dict(depth=ctx.pick(10, 13), edit=1, invariants=K.INV_C06)),
             # the model of the tree BEFORE the two repairs: its counter-examples are replayed below and must NOT be reproduced any more
             ("pre-fix model, oversize reduce-only stop after a partial take-profit: TradeFaithful",
@@ -85,7 +86,7 @@ def run(ctx):
     reproduced = len(ctx.violations) - before
     ctx.coverage["model_counterexamples"] = [{"instance": lab, "invariant": inv, "actions": [a["a"] for a in h]} for lab, inv, h in cex]
     ctx.coverage["model_counterexample_clauses_reproduced_by_the_code"] = reproduced
-    hists, rsim = K.simulated_histories(ctx, ctx.pick(120, 1500), ctx.pick(12, 16), ctx.seed + 1, edit=ctx.pick(1, 2), **FULL)
+    hists, rsim = K.simulated_histories(ctx, ctx.pick(120, 700), ctx.pick(12, 16), ctx.seed + 1, edit=ctx.pick(1, 2), **FULL)
     sim_items = [{"id": 200000 + j, "hist": h, "B": K.BASE, "src": "simulated behaviour", "compare": True} for j, h in enumerate(hists)]
     sim_traces, sim_ids = K.run_replays(ctx, sim_items, compare=True)
     bad_r, st_r = K.judge(ctx, "TraceHooksTrades", sim_traces, "R-sim", sim_ids, parts=ctx.pick(4, 12))
